@@ -185,6 +185,24 @@ def spec(tier, seed):
               cost=15, bounds="all 2^%d letter-case spellings of %s" % (len(k), k.upper()),
               functions=["rusty_parser::Keyword::try_from"])
 
+    tk = b.file("rusty_parser/src/tokens/any_token.rs", "rusty_parser", "tokens::any_token")
+    b.add(tk, "vk_c09_char_classes", """
+        let c: char = kani::any();
+        // blanks are blank and tab; a line terminator is never part of a run of blanks (otherwise a trailing blank would
+        // swallow the line break under some line-ending convention)
+        assert!(is_whitespace(&' ') && is_whitespace(&'\\t'));
+        if c == '\\r' || c == '\\n' { assert!(!is_whitespace(&c)); }
+        if is_whitespace(&c) { assert!(!is_allowed_char_in_identifier(&c)); }
+        // the character classes of identifiers and keyword boundaries do not depend on letter case
+        if c.is_ascii_alphabetic() {
+            let other = if c.is_ascii_uppercase() { c.to_ascii_lowercase() } else { c.to_ascii_uppercase() };
+            assert!(is_allowed_char_in_identifier(&c) && is_allowed_char_in_identifier(&other));
+            assert!(is_allowed_char_after_keyword(c) == is_allowed_char_after_keyword(other));
+        }
+        """, unwind=2, exhaustive=True, cost=5, bounds="every char",
+          functions=["rusty_parser::tokens::any_token::is_whitespace", "rusty_parser::tokens::any_token::is_allowed_char_in_identifier",
+                     "rusty_parser::tokens::any_token::is_allowed_char_after_keyword"])
+
     rc = b.file("rusty_parser/src/input/row_col_view.rs", "rusty_parser", "input::row_col_view")
     for n, t in ((4, "quick"), (6, "thorough")):
         b.add(rc, "vk_c09_line_endings_len%d" % n, """
